@@ -7,6 +7,7 @@
 #pragma once
 #include "c14_static.hpp"
 #include "listlike.hpp"
+#include "long_history.hpp"
 #include <string>
 #include <utility>
 
@@ -430,11 +431,134 @@ namespace c14
         mc::outcome(mc::fmt("%d/%d", n, op));
     }
 
+    // ------------------------------------------------------------------ ranges of a different, convertible element type
+    // static_vector<To,N>(const From*, const From*): every element is CONVERTED (To(*it)), the source is an
+    // exactly-sized heap block (reading it as an array of To is an ASan report).
+    template <class Vec, class To, class From, size_t N> bool converting_case(const string &variant, const char *what, size_t len)
+    {
+        From *src = (From *)malloc(len * sizeof(From) + (len ? 0 : 1));
+        std::vector<To> want;
+        for (size_t i = 0; i < len; i++)
+        {
+            src[i] = (From)(i % 2 ? 200 - (int)i : 3 + (int)i * 37);
+            if (i < N)
+                want.push_back((To)src[i]);
+        }
+        mc::crash_context("C14.%s.ctor_range_converting.%s.crash", variant.c_str(), what);
+        bool ok = true;
+        {
+            Vec v((const From *)src, (const From *)src + len);
+            if (v.size() != want.size())
+                ok = false;
+            for (size_t i = 0; ok && i < want.size(); i++)
+                if (!(v[i] == want[i]))
+                    ok = false;
+            if (!ok)
+                mc::violation(mc::fmt("C14.%s.ctor_range_converting.contents", variant.c_str()), "static_vector<N=%zu> from a range of %zu %s: size %zu (expected %zu) or elements differ from the converted source values",
+                              N, len, what, (size_t)v.size(), want.size());
+        }
+        free(src);
+        return ok;
+    }
+    template <class Tr, size_t N> void converting_n(const string &variant, int pair, size_t len)
+    {
+        if constexpr (Tr::has_range_ctor)
+        {
+            switch (pair)
+            {
+            case 0:
+                converting_case<typename Tr::template vec<double, N>, double, int, N>(variant, "int_to_double", len);
+                break;
+            case 1:
+                converting_case<typename Tr::template vec<long, N>, long, short, N>(variant, "short_to_long", len);
+                break;
+            case 2:
+                converting_case<typename Tr::template vec<int, N>, int, unsigned char, N>(variant, "uchar_to_int", len);
+                break;
+            case 3:
+                converting_case<typename Tr::template vec<float, N>, float, double, N>(variant, "double_to_float", len);
+                break;
+            default:
+                converting_case<typename Tr::template vec<unsigned char, N>, unsigned char, unsigned char, N>(variant, "same_type", len);
+                break;
+            }
+        }
+    }
+    template <class Tr> void converting_range_body(const string &variant)
+    {
+        int c = mc::choose(3 * 5 * 7);
+        int ni = c / 35, pair = c / 7 % 5;
+        size_t len = c % 7;
+        mc::describe("%s: N=%d, pointer range of %zu elements of another type (pair %d)", variant.c_str(), ni + 1, len, pair);
+        if (len > (size_t)(2 * (ni + 1)))
+            throw mc::Skip();
+        mc::nontrivial();
+        switch (ni)
+        {
+        case 0:
+            converting_n<Tr, 1>(variant, pair, len);
+            break;
+        case 1:
+            converting_n<Tr, 2>(variant, pair, len);
+            break;
+        default:
+            converting_n<Tr, 3>(variant, pair, len);
+            break;
+        }
+        mc::outcome(mc::fmt("%d/%zu", pair, len));
+    }
+
+    // ------------------------------------------------------------------ long histories on the same objects
+    template <class Tr> void long_history_body(const string &name)
+    {
+        int c = mc::choose(5 * 3);
+        static const int seeds[3] = {1, 5, 11};
+        int steps = mc::thorough() ? 300000 : 70000, u = c / 3, seed = seeds[c % 3];
+        mc::describe("%s: universe %d, stride seed %d, %d operations on the same two objects", name.c_str(), u, seed, steps);
+        mc::nontrivial();
+        switch (u)
+        {
+        case 0:
+        {
+            SVModel<Tr, Tracked, 3> m(name + "_vector_tracked");
+            lh::long_history(m, "C14." + name + "_vector_tracked", steps, seed);
+            break;
+        }
+        case 1:
+        {
+            SVModel<Tr, int, 3> m(name + "_vector_int");
+            lh::long_history(m, "C14." + name + "_vector_int", steps, seed);
+            break;
+        }
+        case 2:
+        {
+            SVModel<Tr, Tracked, 2> m(name + "_vector_tracked");
+            lh::long_history(m, "C14." + name + "_vector_tracked", steps, seed);
+            break;
+        }
+        case 3:
+        {
+            SVModel<Tr, Tracked, 1> m(name + "_vector_tracked");
+            lh::long_history(m, "C14." + name + "_vector_tracked", steps, seed);
+            break;
+        }
+        default:
+        {
+            SSModel<Tr, 3> m(name + "_string");
+            lh::long_history(m, "C14." + name + "_string", steps, seed);
+            break;
+        }
+        }
+    }
+
     template <class Tr> void register_throwing()
     {
         string n = Tr::name;
         mc::add_check(n + "_vector_address_of_overloaded", [n] { unusual_element_body<Tr, trk::Amp, true>(n + "_vector_address_of_overloaded"); });
         mc::add_check(n + "_vector_move_only", [n] { unusual_element_body<Tr, trk::MoveOnly, false>(n + "_vector_move_only"); });
+        mc::add_check(n + "_long_history", [n] { long_history_body<Tr>(n); });
+        if (Tr::has_range_ctor)
+            mc::add_check(n + "_vector_converting_range", [n] { converting_range_body<Tr>(n + "_vector"); });
         mc::add_check(n + "_vector_emplace_multiarg", [n] { emplace_multiarg_body<Tr>(n + "_vector"); });
         mc::add_check(n + "_vector_throwing_elements", [n] {
             // the first choice combines N with everything else: wide enough to shard
